@@ -437,7 +437,7 @@ var (
 )
 
 func genText() *rapid.Generator[string] {
-	return rapid.OneOf(rapid.SampledFrom([]string{"", "a", "example.com", " lead", "trail ", "  ", "a<b", "a&b", `"q"`, "'", "]]>", "é", "a\nb", "a\rb", "a\r\nb", "\r", "x y", "&amp;", "💥"}), rapid.StringMatching(`[a-zA-Z@. <>&"' é]{0,8}`))
+	return rapid.OneOf(rapid.SampledFrom([]string{"", "a", "example.com", " lead", "trail ", "  ", "a<b", "a&b", `"q"`, "'", "]]>", "é", "a\nb", "a\rb", "a\r\nb", "\r", "x y", "&amp;", "💥", `a\,b`, `a\\b`, `\n`, `\`, "%41", "%", "&#65;", "&#x41;", "&amp;amp;", "^n", "a;b", "a,b"}), rapid.StringMatching(`[a-zA-Z@. <>&"' é]{0,8}`))
 }
 
 func genTM(rt *rapid.T, noise bool) vdav.CardTM {
